@@ -167,17 +167,17 @@ Proof.
     split; [eapply DE_trans; eauto|]. cbn [map List.concat fst snd]. eapply Dstep_trans; eauto.
 Qed.
 
-Lemma custom_call_core s gd args vs qs bss parts :
+Lemma custom_call_core s gd args vs qs bs parts :
   Regs env s -> gates s = G -> gstack s = stk -> sget name G = Some gd -> smem name stk = false ->
-  cvals args = Some vs ->
-  List.length vs = List.length (g_params gd) -> List.length (List.concat bss) = List.length (g_qubits gd) ->
-  mapM (opnd_bits (e_q env)) qs = Some bss -> distinctb [] (List.concat bss) = true ->
+  mapMM (fun e => eval0 (visit_call check_only [] (S f)) e false None) args s = Ok (vs, s) -> List.length vs = List.length args ->
+  List.length vs = List.length (g_params gd) -> List.length bs = List.length (g_qubits gd) ->
+  get_op_bits (visit_call check_only [] (S f)) qs (qreg_sizes s) true s = Ok (bs, s) ->
   mapM (binst (fold_left (fun acc p => sset (fst p) (snd p) acc) (combine (g_params gd) vs) [])
-              (dedup_names_last (combine (g_qubits gd) (List.concat bss))) name H) (g_body gd) = Some parts ->
+              (dedup_names_last (combine (g_qubits gd) bs)) name H) (g_body gd) = Some parts ->
   exists s', visit_stmt check_only [] (S (S f)) (SGate [] name args qs) s
              = Ok ((if check_only then [] else List.concat (map fst parts)), s') /\ DE s s' /\ Dstep s s' (List.concat (map snd parts)).
 Proof.
-  intros R HG Hstk Hg Hst Hargs Hv Hb Hq Hd Ep. set (bs := List.concat bss) in *.
+  intros R HG Hstk Hg Hst Hargs Hla Hv Hb Hres Ep.
   cbn [visit_stmt visit_stmt_body]. set (vr := visit_stmt check_only [] (S f)). set (cr := visit_call check_only [] (S f)).
   unfold visit_generic_gate. cbn [collapse_mods]. rewrite (bind_eq _ _ s (VInt 1, false) s eq_refl).
   rewrite (bind_eq _ _ s s s eq_refl). rewrite (in_some_function_false env s R), andb_false_r.
@@ -194,11 +194,10 @@ Proof.
   assert (Hc : visit_custom_gate check_only vr cr name args qs false s
                = Ok ((if check_only then [] else out), gpop s4)).
   { unfold visit_custom_gate. rewrite (bind_eq _ _ s s s eq_refl). rewrite Hg'.
-    pose proof (get_op_bits_opnds cr env s true qs bss R Hq Hd) as GB. cbn iota in GB. fold bs in GB.
-    rewrite (bind_eq _ _ s bs s GB).
-    rewrite <- (cvals_length args vs Hargs), Hv, Nat.eqb_refl. cbn [guard]. rewrite (bind_eq _ _ s tt s eq_refl).
+    rewrite (bind_eq _ _ s bs s Hres).
+    rewrite <- Hla, Hv, Nat.eqb_refl. cbn [guard]. rewrite (bind_eq _ _ s tt s eq_refl).
     rewrite Hb, Nat.eqb_refl. cbn [guard]. rewrite (bind_eq _ _ s tt s eq_refl).
-    rewrite (bind_eq _ _ s vs s (cvals_eval cr args vs s Hargs)).
+    rewrite (bind_eq _ _ s vs s Hargs).
     rewrite (bind_eq _ _ s s s eq_refl). rewrite Hst'. cbn [negb guard]. rewrite (bind_eq _ _ s tt s eq_refl).
     rewrite (bind_eq _ _ s tt (with_gstack s (name :: gstack s)) eq_refl).
     rewrite (bind_eq _ _ _ tt (gpush s name) eq_refl).
@@ -268,6 +267,9 @@ Proof.
   apply andb_true_iff in C as [C Hb].
   apply andb_true_iff in C as [Hst Hv]. apply negb_true_iff in Hst. apply Nat.eqb_eq in Hv, Hb.
   eapply (custom_call_core check_only f env G name stk (ghandler (gcall n env G) env G (name :: stk))); eauto.
+  4:{ pose proof (get_op_bits_opnds (visit_call check_only [] (S f)) env s true qs bss R Hq Hd) as GB. exact GB. }
+  2:{ now apply cvals_eval. }
+  2:{ now apply cvals_length. }
   (* the handler *)
   intros op' o e s0 Ho R0 G0 S0. unfold ghandler in Ho. destruct op'; try discriminate Ho.
   destruct (sget name0 G) as [gd0|] eqn:Eg0.
@@ -438,6 +440,65 @@ Definition gcall_ok (env : renv) (G : genv) (stm : stmt) : option (list stmt * l
   | _ => None
   end.
 
+(* calls of defined gates inside loop bodies: operands may be indexed by the loop variable *)
+Definition hcall (x : string) (v : Z) (env : renv) (G : genv) (stm : stmt) : option (list stmt * list (list rsrc)) :=
+  match stm with
+  | SGate [] name args qs =>
+      match sget name G, mapM (opnd_bits_l x v (e_q env)) qs, cvals args with
+      | Some _, Some bss, Some vs =>
+          if distinctb [] (List.concat bss) then gcall (Nat.pred gate_nesting) env G [] name vs (List.concat bss) else None
+      | _, _, _ => None
+      end
+  | _ => None
+  end.
+
+Lemma gcall_fix_l check_only env G n : forall f s x v name args vs qs bss out evs,
+  (n <= S f)%nat -> Regs env s -> InLoop x v s -> gates s = G -> gstack s = [] -> cvals args = Some vs ->
+  mapM (opnd_bits_l x v (e_q env)) qs = Some bss -> distinctb [] (List.concat bss) = true ->
+  gcall n env G [] name vs (List.concat bss) = Some (out, evs) ->
+  exists s', visit_stmt check_only [] (S (S f)) (SGate [] name args qs) s
+             = Ok ((if check_only then [] else out), s') /\ DE s s' /\ Dstep s s' evs.
+Proof.
+  intros f s x v name args vs qs bss out evs Hn R L HG Hstk Hargs Hq Hd Hc.
+  destruct n as [|n]; [discriminate Hc|].
+  cbn [gcall] in Hc. destruct (sget name G) as [gd|] eqn:Eg; [|discriminate Hc].
+  match type of Hc with (if ?c then _ else _) = _ => destruct c eqn:C; [|discriminate Hc] end.
+  match type of Hc with match ?m with _ => _ end = _ => destruct m as [parts|] eqn:Ep; [|discriminate Hc] end. injection Hc as <- <-.
+  apply andb_true_iff in C as [C Hb].
+  apply andb_true_iff in C as [Hst Hv]. apply negb_true_iff in Hst. apply Nat.eqb_eq in Hv, Hb.
+  eapply (custom_call_core check_only f env G name [] (ghandler (gcall n env G) env G [name])); eauto.
+  4:{ rewrite get_op_bits_gob. now rewrite (gob_opnds_l (visit_call check_only [] (S f)) env s x v qs bss [] R L Hq Hd). }
+  2:{ now apply cvals_eval. }
+  2:{ now apply cvals_length. }
+  intros op' o e s0 Ho R0 G0 S0. unfold ghandler in Ho. destruct op'; try discriminate Ho.
+  destruct (sget name0 G) as [gd0|] eqn:Eg0.
+  - destruct mods; [|discriminate Ho]. destruct (mapM (opnd_bits (e_q env)) qubits) as [bss'|] eqn:Eb'; [|discriminate Ho].
+    destruct (cvals args0) as [vs'|] eqn:Ev'; [|discriminate Ho].
+    destruct (distinctb [] (List.concat bss')) eqn:Ed'; [|discriminate Ho].
+    destruct f as [|f']; [assert (n = O) by lia; subst n; discriminate Ho|].
+    eapply (gcall_fix check_only env G n f' [name] s0 name0 args0 vs' qubits bss' o e); eauto. lia.
+  - eapply mod_fix; eauto.
+Qed.
+
+Lemma hcall_fix check_only f x v env G s stm o e : (Nat.pred gate_nesting <= S f)%nat ->
+  Regs env s -> InLoop x v s -> gates s = G -> gstack s = [] -> hcall x v env G stm = Some (o, e) ->
+  exists s1, visit_stmt check_only [] (S (S f)) stm s = Ok ((if check_only then [] else o), s1) /\ DE s s1 /\ Dstep s s1 e.
+Proof.
+  intros Hn R L HG HS H. destruct stm; try discriminate H. cbn [hcall] in H. destruct mods; [|discriminate H].
+  destruct (sget name G) as [gd|] eqn:Eg; [|discriminate H].
+  destruct (mapM (opnd_bits_l x v (e_q env)) qubits) as [bss|] eqn:Eb; [|discriminate H]. destruct (cvals args) as [vs|] eqn:Ev; [|discriminate H].
+  destruct (distinctb [] (List.concat bss)) eqn:Ed; [|discriminate H].
+  eapply gcall_fix_l; eauto.
+Qed.
+
+Lemma hcall_ops x v env G stm o e : hcall x v env G stm = Some (o, e) -> forallb (op_ok env) o = true.
+Proof.
+  intros H. destruct stm; try discriminate H. cbn [hcall] in H. destruct mods; [|discriminate H].
+  destruct (sget name G); [|discriminate H]. destruct (mapM (opnd_bits_l x v (e_q env)) qubits) as [bss|]; [|discriminate H].
+  destruct (cvals args) as [vs|]; [|discriminate H]. destruct (distinctb [] (List.concat bss)); [|discriminate H].
+  eapply gcall_ops; eauto.
+Qed.
+
 Definition gtop_step (env : renv) (G : genv) (stm : stmt) : option (renv * genv * list stmt * list (list rsrc)) :=
   match stm with
   | SGateDef name params qubits body =>
@@ -453,7 +514,7 @@ Definition gtop_step (env : renv) (G : genv) (stm : stmt) : option (renv * genv 
               match mod_ok env G stm with
               | Some (out, evs) => Some (env, G, out, evs)
               | None =>
-                  match gloop_ok env G stm with
+                  match gloop_ok hcall env G stm with
                   | Some (out, evs) => Some (env, G, out, evs)
                   | None => match ptop_step env stm with Some (env', out, evs) => Some (env', G, out, evs) | None => None end
                   end
@@ -522,7 +583,7 @@ Proof.
                                   | None =>
                                   match mod_ok env G stm with
                                   | Some (out, evs) => Some (env, G, out, evs)
-                                  | None => match gloop_ok env G stm with
+                                  | None => match gloop_ok hcall env G stm with
                                             | Some (out, evs) => Some (env, G, out, evs)
                                             | None => match ptop_step env stm with Some (env', out, evs) => Some (env', G, out, evs) | None => None end
                                             end
@@ -557,10 +618,11 @@ Proof.
             destruct (DE_counts _ _ D1) as [Nq Nc]. destruct (gframe_DE _ _ D1) as [Fg Fs].
             exists s1. split; [exact E1|]. split; [eapply Top_DE; eauto|]. split; [lia|]. split; [lia|]. split; [exact S1|].
             split; [intros r0; now apply wf_flat_ops|]. split; congruence. }
-          destruct (gloop_ok env G stm) as [[lo le]|] eqn:Elo.
-          { injection Eo as <- <- <- <-. destruct fuel as [|[|f]]; try lia.
-            destruct (gloop_fix f env G s stm lo le T HG Elo) as (s1 & E1 & D1 & S1).
-            pose proof (gloop_ok_ops env G stm lo le Elo) as Ops. destruct (total_ops env lo Ops) as [Tq Tc].
+          destruct (gloop_ok hcall env G stm) as [[lo le]|] eqn:Elo.
+          { injection Eo as <- <- <- <-. destruct fuel as [|[|[|f]]]; try (unfold gate_nesting in HN; lia).
+            assert (Hnf : (Nat.pred gate_nesting <= S f)%nat) by (unfold gate_nesting in *; lia).
+            destruct (gloop_fix hcall (Nat.pred gate_nesting) hcall_fix f env G s stm lo le Hnf T HG Hst Elo) as (s1 & E1 & D1 & S1).
+            pose proof (gloop_ok_ops hcall hcall_ops env G stm lo le Elo) as Ops. destruct (total_ops env lo Ops) as [Tq Tc].
             destruct (DE_counts _ _ D1) as [Nq Nc]. destruct (gframe_DE _ _ D1) as [Fg Fs].
             exists s1. split; [exact E1|]. split; [eapply Top_DE; eauto|]. split; [lia|]. split; [lia|]. split; [exact S1|].
             split; [intros r0; now apply wf_flat_ops|]. split; congruence. }
@@ -683,7 +745,7 @@ Proof.
                                   | None =>
                                   match mod_ok env G stm with
                                   | Some (out, evs) => Some (env, G, out, evs)
-                                  | None => match gloop_ok env G stm with
+                                  | None => match gloop_ok hcall env G stm with
                                             | Some (out, evs) => Some (env, G, out, evs)
                                             | None => match ptop_step env stm with Some (env', out, evs) => Some (env', G, out, evs) | None => None end
                                             end
@@ -709,10 +771,11 @@ Proof.
           { injection Eo as <- <- <- <-. destruct fuel as [|f]; [lia|].
             destruct (mod_fix true f env G s stm mo me (T_regs _ _ T) HG Emo) as (s1 & E1 & D1 & S1).
             exists s1. split; [exact E1|]. apply HDE; auto. eapply mod_ok_ops; eauto. }
-          destruct (gloop_ok env G stm) as [[glo gle]|] eqn:Elo.
-          { injection Eo as <- <- <- <-. destruct fuel as [|[|f]]; try lia.
-            destruct (gloop_fix_validate f env G s stm glo gle T HG Elo) as (s1 & E1 & D1).
-            exists s1. split; [exact E1|]. apply HDE; auto. eapply gloop_ok_ops; eauto. }
+          destruct (gloop_ok hcall env G stm) as [[glo gle]|] eqn:Elo.
+          { injection Eo as <- <- <- <-. destruct fuel as [|[|[|f]]]; try (unfold gate_nesting in HN; lia).
+            assert (Hnf : (Nat.pred gate_nesting <= S f)%nat) by (unfold gate_nesting in *; lia).
+            destruct (gloop_fix_validate hcall (Nat.pred gate_nesting) hcall_fix f env G s stm glo gle Hnf T HG Hst Elo) as (s1 & E1 & D1).
+            exists s1. split; [exact E1|]. apply HDE; auto. eapply (gloop_ok_ops hcall hcall_ops); eauto. }
           destruct (ptop_step env stm) as [[[env'' out''] evs'']|] eqn:Ep; [|discriminate Eo]. injection Eo as <- <- <- <-.
           unfold ptop_step in Ep. destruct (loop_ok env stm) as [lo|] eqn:El.
           + injection Ep as <- <- <-. destruct fuel as [|[|f]]; try lia.
